@@ -16,6 +16,8 @@ extern const PropDef g_props_misc[] __attribute__((weak));
 extern const PropDef g_props_c09[] __attribute__((weak));
 extern const PropDef g_props_fault[] __attribute__((weak));
 extern const PropDef g_props_cont[] __attribute__((weak));
+extern const PropDef g_props_perf[] __attribute__((weak));
+extern const int g_nprops_perf __attribute__((weak));
 extern const int g_nprops_cont __attribute__((weak));
 extern const int g_nprops_fault __attribute__((weak));
 extern const int g_nprops_c09 __attribute__((weak));
@@ -24,7 +26,7 @@ extern const int g_nprops_misc __attribute__((weak));
 const PropDef *findProp(const std::string &id) {
   struct T { const PropDef *p; const int *n; } tabs[] = {
       {g_props_parse, &g_nprops_parse}, {g_props_rec, &g_nprops_rec}, {g_props_def, &g_nprops_def},
-      {g_props_hist, &g_nprops_hist}, {g_props_misc, &g_nprops_misc}, {g_props_c09, &g_nprops_c09}, {g_props_fault, &g_nprops_fault}, {g_props_cont, &g_nprops_cont}};
+      {g_props_hist, &g_nprops_hist}, {g_props_misc, &g_nprops_misc}, {g_props_c09, &g_nprops_c09}, {g_props_fault, &g_nprops_fault}, {g_props_cont, &g_nprops_cont}, {g_props_perf, &g_nprops_perf}};
   for (auto &t : tabs) {
     if (!t.p || !t.n) continue;
     for (int i = 0; i < *t.n; i++) if (id == t.p[i].id) return &t.p[i];
